@@ -18,6 +18,12 @@ func StringToBytes32(str string) ([32]byte, error) {
 		return [32]byte{}, fmt.Errorf("string is too long")
 	}
 
+	// The string is right-aligned and zero-padded on the left, so a leading zero byte would make
+	// it indistinguishable from the string without it.
+	if len(str) > 0 && str[0] == 0 {
+		return [32]byte{}, fmt.Errorf("string must not start with a zero byte")
+	}
+
 	var byteArray [32]byte
 	copy(byteArray[32-len(str):], str)
 	return byteArray, nil
